@@ -58,6 +58,20 @@ func (kgdb *KVInterfaceGDB) AddVertex(vertices []*gdbi.Vertex) error {
 	return err
 }
 
+// removeEdgeTx deletes the keys and the index entries of the stored edge `old`
+func (kgdb *KVInterfaceGDB) removeEdgeTx(tx kvi.KVTransaction, old *gdbi.Edge) error {
+	ekey := EdgeKey(kgdb.graph, old.ID, old.From, old.To, old.Label, edgeSingle)
+	skey := SrcEdgeKey(kgdb.graph, old.From, old.To, old.ID, old.Label, edgeSingle)
+	dkey := DstEdgeKey(kgdb.graph, old.From, old.To, old.ID, old.Label, edgeSingle)
+	for _, k := range [][]byte{ekey, skey, dkey} {
+		if err := tx.Delete(k); err != nil {
+			return err
+		}
+	}
+	doc := map[string]interface{}{kgdb.graph: edgeIdxStruct(old.ToEdge())}
+	return kgdb.kvg.idx.RemoveDocTx(tx, old.ID, doc)
+}
+
 func insertVertex(tx kvi.KVBulkWrite, idx *kvindex.KVIndex, graph string, vertex *gripql.Vertex) error {
 	if err := vertex.Validate(); err != nil {
 		return err
@@ -157,31 +171,14 @@ func (kgdb *KVInterfaceGDB) BulkAdd(stream <-chan *gdbi.GraphElement) error {
 
 // DelEdge deletes edge with id `key`
 func (kgdb *KVInterfaceGDB) DelEdge(eid string) error {
-	ekeyPrefix := EdgeKeyPrefix(kgdb.graph, eid)
-	var ekey []byte
-	kgdb.kvg.kv.View(func(it kvi.KVIterator) error {
-		for it.Seek(ekeyPrefix); it.Valid() && bytes.HasPrefix(it.Key(), ekeyPrefix); it.Next() {
-			ekey = it.Key()
-		}
-		return nil
-	})
-
-	if ekey == nil {
+	old := kgdb.GetEdge(eid, true)
+	if old == nil {
 		return fmt.Errorf("Edge Not Found")
 	}
-
-	_, _, sid, did, _, _ := EdgeKeyParse(ekey)
-
-	skey := SrcEdgeKeyPrefix(kgdb.graph, sid, did, eid)
-	dkey := DstEdgeKeyPrefix(kgdb.graph, sid, did, eid)
-
-	if err := kgdb.kvg.kv.Delete(ekey); err != nil {
-		return err
-	}
-	if err := kgdb.kvg.kv.Delete(skey); err != nil {
-		return err
-	}
-	if err := kgdb.kvg.kv.Delete(dkey); err != nil {
+	err := kgdb.kvg.kv.Update(func(tx kvi.KVTransaction) error {
+		return kgdb.removeEdgeTx(tx, old)
+	})
+	if err != nil {
 		return err
 	}
 	kgdb.kvg.ts.Touch(kgdb.graph)
@@ -190,38 +187,46 @@ func (kgdb *KVInterfaceGDB) DelEdge(eid string) error {
 
 // DelVertex deletes vertex with id `key`
 func (kgdb *KVInterfaceGDB) DelVertex(id string) error {
+	old := kgdb.GetVertex(id, true)
+	if old == nil {
+		return fmt.Errorf("Vertex Not Found")
+	}
 	vid := VertexKey(kgdb.graph, id)
 	skeyPrefix := SrcEdgePrefix(kgdb.graph, id)
 	dkeyPrefix := DstEdgePrefix(kgdb.graph, id)
 
-	delKeys := make([][]byte, 0, 1000)
+	delEdges := map[string]*gdbi.Edge{}
 
 	kgdb.kvg.kv.View(func(it kvi.KVIterator) error {
 		for it.Seek(skeyPrefix); it.Valid() && bytes.HasPrefix(it.Key(), skeyPrefix); it.Next() {
-			skey := it.Key()
 			// get edge ID from key
-			_, sid, did, eid, label, etype := SrcEdgeKeyParse(skey)
-			ekey := EdgeKey(kgdb.graph, eid, sid, did, label, etype)
-			dkey := DstEdgeKey(kgdb.graph, sid, did, eid, label, etype)
-			delKeys = append(delKeys, skey, dkey, ekey)
+			_, sid, did, eid, label, _ := SrcEdgeKeyParse(it.Key())
+			delEdges[eid] = &gdbi.Edge{ID: eid, From: sid, To: did, Label: label}
 		}
 		for it.Seek(dkeyPrefix); it.Valid() && bytes.HasPrefix(it.Key(), dkeyPrefix); it.Next() {
-			dkey := it.Key()
 			// get edge ID from key
-			_, sid, did, eid, label, etype := DstEdgeKeyParse(dkey)
-			ekey := EdgeKey(kgdb.graph, eid, sid, did, label, etype)
-			skey := SrcEdgeKey(kgdb.graph, sid, did, eid, label, etype)
-			delKeys = append(delKeys, skey, dkey, ekey)
+			_, sid, did, eid, label, _ := DstEdgeKeyParse(it.Key())
+			delEdges[eid] = &gdbi.Edge{ID: eid, From: sid, To: did, Label: label}
 		}
 		return nil
 	})
+	for eid := range delEdges {
+		// load the edge data, the index entries are derived from it
+		if e := kgdb.GetEdge(eid, true); e != nil {
+			delEdges[eid] = e
+		}
+	}
 
+	vdoc := map[string]interface{}{kgdb.graph: vertexIdxStruct(old.ToVertex())}
 	return kgdb.kvg.kv.Update(func(tx kvi.KVTransaction) error {
 		if err := tx.Delete(vid); err != nil {
 			return err
 		}
-		for _, k := range delKeys {
-			if err := tx.Delete(k); err != nil {
+		if err := kgdb.kvg.idx.RemoveDocTx(tx, id, vdoc); err != nil {
+			return err
+		}
+		for _, e := range delEdges {
+			if err := kgdb.removeEdgeTx(tx, e); err != nil {
 				return err
 			}
 		}
